@@ -35,7 +35,9 @@ RULE = ("cases: dom = (cone with integer/dyadic rows, dyadic-lattice pair a,b) w
         "metamorphic translation / 2^k-scaling invariance of dominates (single and same-shape batched calls) on cones "
         "with non-dyadic entries (bundled acute/obtuse, theta-cones incl. rational-tangent angles, ice-cream, user "
         "float matrices, N>m), differences weighted onto facets of the ideal cone, all sums asserted exact; "
-        "non-trivial when a pair is numerically on a facet of the stored W. non-trivial: dom/batch = not all "
+        "non-trivial when a pair is numerically on a facet of the stored W; helper = public geometry helpers "
+        "called directly on existing objects (order.compute_ice_cream_cone(K, theta) positional/keyword with (K, theta) "
+        "other than the object's own; get_2d_w(theta) repeatedly) checked like the constructor matrices. non-trivial: dom/batch = not all "
         "facet values strictly of one sign or a tie present; laws = at least one implication premise true; "
         "ctor* = always (distinct parameters); distinct by the full case")
 ASSUMPTIONS = [
@@ -502,6 +504,24 @@ def gen(ctx):
                 yield _gen_extreme(rng, cname, shape)
     for _ in range(ctx.n(500, 40000)):
         yield _gen_extreme(rng, rng.choice(names), rng.choice(EXTREME_SHAPES))
+    # ---- public geometry helpers called directly, as a user can, on EXISTING objects built with other parameters
+    #      (fixed cases in every run, then random ones)
+    fixed_helper = [
+        {"kind": "helper", "own": [60, 4], "calls": [[4, 60], [6, 30], [3, 45], [8, 20], [5, 72.5], [12, 85]],
+         "thetas": [30, 90, 120.5, 30]},
+        {"kind": "helper", "own": [30, 6], "calls": [[6, 60], [3, 30], [7, 1], [64, 45.0]], "thetas": [90, 91, 89, 90.0]},
+        {"kind": "helper", "own": [85.5, 3], "calls": [[3, 10], [16, 85.5], [5, 44]], "thetas": [1, 179, 45]},
+    ]
+    for c in fixed_helper:
+        if mine():
+            yield c
+    for _ in range(ctx.n(12, 800)):
+        own = [rng.choice([10, 30, 45, 60, 75, rng.uniform(1, 89)]), rng.randint(3, 8)]
+        calls = [[rng.randint(3, 24 if not thorough else 64), rng.choice([rng.uniform(0.5, 89.5), float(rng.randint(1, 89))])]
+                 for _ in range(4)]
+        yield {"kind": "helper", "own": own, "calls": calls,
+               "thetas": [rng.choice([rng.uniform(0.5, 179.5), float(rng.randint(1, 179)), rng.randint(1, 179)])
+                          for _ in range(4)]}
     # ---- metamorphic translation / power-of-two scaling invariance on cones with non-dyadic entries (bundled
     #      acute/obtuse, theta-cones, ice-cream, user float matrices), weighted to differences on ideal facets
     specs = _meta_specs()
@@ -1146,6 +1166,128 @@ def _run_extreme(ctx, case):
     ctx.case_done(case, bool(np.any(d != 0)), canon=["extreme", mode, W, case["a"], case["b"], case["t"], case["sexp"]])
 
 
+def _ice_matrix_geometry(ctx, case, W, K, th, label):
+    """(R) checks of a K x 3 facet matrix claimed to be the ice-cream cone of half-angle th: every facet normal makes
+    angle pi/2 - th with the rotated axis (1/2, 1/2, sqrt2/2); exact sign tests: points at half-angle th - 1e-6 about
+    the axis satisfy every facet, the point at th + 1e-6 opposite facet i is cut off by facet i."""
+    W = np.asarray(W, dtype=float)
+    if W.ndim != 2 or W.shape != (K, 3) or not np.isfinite(W).all():
+        ctx.violation("helper-ice-shape", f"{label}: not a finite {K}x3 matrix (shape {W.shape})", case)
+        return False
+    t = math.radians(float(th))
+    axis = _rot([0.0, 0.0, 1.0])
+    for i, r in enumerate(W.tolist()):
+        nrm = math.sqrt(sum(x * x for x in r))
+        ca = sum(x * y for x, y in zip(r, axis)) / nrm if nrm > 0 else float("nan")
+        if not abs(ca - math.sin(t)) <= 1e-11:
+            tilt = math.degrees(math.asin(max(-1.0, min(1.0, ca)))) if ca == ca else float("nan")
+            ctx.violation("helper-ice-tangent", f"{label}: facet {i} is not tangent to the circular cone of the GIVEN "
+                          f"half-angle {th!r} deg about the rotated axis (its normal makes angle 90 - {tilt:.6g} deg with the "
+                          f"axis, i.e. it is tangent to half-angle {tilt:.6g} deg)", case,
+                          detail={"facet": i, "cos_angle": ca, "sin_theta": math.sin(t)})
+            return False
+
+    def pt(psi, b):
+        return _rot([math.sin(psi) * math.cos(b), math.sin(psi) * math.sin(b), math.cos(psi)])
+
+    ang = [2 * math.pi * i / K for i in range(K)]
+    inside_pts = [pt(t - DELTA, a + math.pi) for a in ang] + [axis]
+    outside_pts = [pt(t + DELTA, a + math.pi) for a in ang]
+    P = np.array(inside_pts + outside_pts, dtype=float)
+    model = core.parse_bools(_ask(ctx, "insideB", core.qmat(W), core.qmat(P)))
+    expd = [True] * len(inside_pts) + [False] * len(outside_pts)
+    if model != expd:
+        bad = [i for i in range(len(expd)) if model[i] != expd[i]][0]
+        ctx.violation("helper-ice-tangent", f"{label}: a point of the circular cone of half-angle θ−1e-6 is cut off, or the "
+                      "point at half-angle θ+1e-6 opposite a facet is not cut off (exact facet inequalities)", case,
+                      detail={"point": P[bad].tolist(), "expected_inside": expd[bad]})
+        return False
+    for i in range(K):
+        if not _facet_vals([W[i].tolist()], outside_pts[i])[0] < 0:
+            ctx.violation("helper-ice-tangent", f"{label}: facet {i} does not cut off the point opposite it", case)
+            return False
+    return True
+
+
+def _run_helper(ctx, case):
+    """Public geometry helpers called directly on existing objects: `order.compute_ice_cream_cone(K, theta)`
+    (positional and keyword) on an order built with other parameters; `get_2d_w(theta)` called repeatedly."""
+    import vopy.ordering_cone as oc
+    from vopy.order import ConeOrder3DIceCream, ConeTheta2DOrder
+    from vopy.utils import get_2d_w
+
+    th0, K0 = case["own"][0], int(case["own"][1])
+    saved = oc.get_alpha_vec
+    try:
+        if K0 > 8:
+            oc.get_alpha_vec = lambda W: np.ones(len(W))
+        order = ConeOrder3DIceCream(th0, K0)
+    except Exception as e:
+        ctx.violation("helper-ctor-crash:" + core.exc_key(e), f"ConeOrder3DIceCream({th0!r}, {K0}) raised {type(e).__name__}", case)
+        return
+    finally:
+        oc.get_alpha_vec = saved
+    W_own = np.array(order.ordering_cone.W, dtype=float, copy=True)
+    for K, th in case.get("calls", []):
+        K = int(K)
+        label = f"ConeOrder3DIceCream({th0!r}, {K0}).compute_ice_cream_cone({K}, {th!r})"
+        ctx.count("helper_ice_calls")
+        try:
+            W_pos = np.array(order.compute_ice_cream_cone(K, th), dtype=float)
+            W_kw = np.array(order.compute_ice_cream_cone(theta=th, K=K), dtype=float)
+        except Exception as e:
+            ctx.violation("helper-ice-crash:" + core.exc_key(e), f"{label} raised {type(e).__name__}: {e}", case)
+            return
+        if not _ice_matrix_geometry(ctx, case, W_pos, K, th, label):
+            return
+        if not _ice_matrix_geometry(ctx, case, W_kw, K, th, label + " [keyword call]"):
+            return
+        Wm = _parse_fmat(_ask(ctx, "icecream", str(K), core.q(float(th))))
+        _cmp_matrix(ctx, case, "helper-ice-term", label, W_pos, Wm)
+        _cmp_matrix(ctx, case, "helper-ice-term", label + " [keyword call]", W_kw, Wm)
+        if K <= 6:   # a freshly constructed cone of those parameters (real alpha computation: keep K small)
+            try:
+                W_new = np.array(ConeOrder3DIceCream(th, K).ordering_cone.W, dtype=float)
+            except Exception as e:
+                ctx.violation("helper-ctor-crash:" + core.exc_key(e), f"ConeOrder3DIceCream({th!r}, {K}) raised", case)
+                return
+            _cmp_matrix(ctx, case, "helper-ice-vs-fresh", label + " vs freshly constructed cone", W_pos, W_new.tolist())
+    if not np.array_equal(np.asarray(order.ordering_cone.W, dtype=float), W_own):
+        ctx.violation("helper-ice-mutates", "calling compute_ice_cream_cone changed the order's own ordering_cone.W", case, kind="F")
+    # get_2d_w called directly, repeatedly, interleaved (no hidden state); vs fresh ConeTheta2DOrder and the model term
+    seen = {}
+    for th in case.get("thetas", []):
+        ctx.count("helper_get2dw_calls")
+        try:
+            W = np.array(get_2d_w(th), dtype=float)
+            W_obj = np.array(ConeTheta2DOrder(th).ordering_cone.W, dtype=float)
+        except Exception as e:
+            ctx.violation("helper-2d-crash:" + core.exc_key(e), f"get_2d_w({th!r}) raised {type(e).__name__}: {e}", case)
+            return
+        key = repr(float(th))
+        if key in seen and not np.array_equal(seen[key], W):
+            ctx.violation("helper-2d-stateful", f"get_2d_w({th!r}) returned different matrices on repeated calls", case)
+            return
+        seen[key] = W
+        if W.shape != (2, 2) or not np.isfinite(W).all():
+            ctx.violation("helper-2d-shape", f"get_2d_w({th!r}) is not a finite 2x2 matrix", case)
+            return
+        Wm = _parse_fmat(_ask(ctx, "theta2d", core.q(float(th))))
+        _cmp_matrix(ctx, case, "helper-2d-term", f"get_2d_w({th!r})", W, Wm)
+        _cmp_matrix(ctx, case, "helper-2d-vs-fresh", f"get_2d_w({th!r}) vs ConeTheta2DOrder({th!r}).ordering_cone.W", W, W_obj.tolist())
+        half = math.radians(float(th)) / 2
+        probes = [(0.0, True), (math.pi, False), (half - DELTA, True), (-(half - DELTA), True),
+                  (half + DELTA, False), (-(half + DELTA), False)]
+        dirs = [[math.cos(math.pi / 4 + psi), math.sin(math.pi / 4 + psi)] for psi, _ in probes]
+        model = core.parse_bools(_ask(ctx, "insideB", core.qmat(W), core.qmat(np.array(dirs))))
+        if model != [e for _, e in probes]:
+            ctx.violation("helper-2d-angle", f"get_2d_w({th!r}): directions within θ/2 of the diagonal are not exactly the "
+                          "cone's directions (exact facet inequalities on probe directions)", case,
+                          detail={"W": W.tolist(), "exact": model, "expected": [e for _, e in probes]})
+            return
+    ctx.case_done(case, True, canon=["helper", case["own"], case.get("calls"), case.get("thetas")])
+
+
 _meta_cache = {}
 
 
@@ -1277,7 +1419,7 @@ def _run_meta(ctx, case):
     ctx.case_done(case, fired > 0 and any(knife), canon=["meta", spec, case["D"], case["base"], case["T"], case.get("ks")])
 
 
-_RUN = {"meta": _run_meta, "extreme": _run_extreme, "dtype": _run_dtype, "dom": _run_dom, "batch": _run_batch, "laws": _run_laws, "ctor2d": _run_ctor2d, "ctor3d": _run_ctor3d,
+_RUN = {"helper": _run_helper, "meta": _run_meta, "extreme": _run_extreme, "dtype": _run_dtype, "dom": _run_dom, "batch": _run_batch, "laws": _run_laws, "ctor2d": _run_ctor2d, "ctor3d": _run_ctor3d,
         "ice": _run_ice, "eq": _run_eq, "comp": _run_comp}
 
 
